@@ -37,7 +37,7 @@ Q01 = [("mailbox", 30000), ("backpressure", 8000), ("lifecycle", 8000), ("owning
 Q02 = [("mailbox", 16000), ("lifecycle", 16000), ("owning", 10000), ("backpressure", 4000), ("timeout", 6000), ("restart", 6000), ("faults+faults", 250), ("lifecycle+faults", 250)]
 Q03 = [("lifecycle", 24000), ("owning", 8000), ("handles", 6000), ("mailbox", 4000), ("stream", 8000), ("restart", 6000), ("timeout", 6000)]
 Q04 = [("lifecycle", 30000), ("owning", 12000), ("mailbox", 6000), ("backpressure", 4000), ("timeout", 8000), ("restart", 4000), ("faults+faults", 250), ("lifecycle+faults", 250)]
-Q05 = [("handles", 24000), ("lifecycle", 12000), ("owning", 6000), ("mailbox", 4000), ("broker", 8000), ("stream", 6000), ("timers", 6000), ("tree", 8000)]
+Q05 = [("handles", 24000), ("lifecycle", 12000), ("owning", 6000), ("mailbox", 4000), ("broker", 8000), ("stream", 6000), ("timers", 6000), ("tree", 8000), ("svckeep", 6000)]
 Q12 = [("backpressure", 30000), ("mailbox", 10000), ("lifecycle", 4000)]
 Q17 = [("owning", 30000), ("lifecycle", 10000), ("mailbox", 4000), ("timeout", 8000), ("restart", 8000)]
 
@@ -51,7 +51,7 @@ Q15 = [("kinds", 30000), ("handles", 12000), ("restart", 4000), ("lifecycle", 40
 Q06 = [("faults+faults", 700), ("tree+faults", 500), ("svcfaults+faults", 300), ("lifecycle+faults", 300), ("timeout", 8000)]
 Q16 = [("tree", 30000), ("tree+faults", 300), ("faults", 4000)]
 
-Q08 = [("registry", 40000), ("liveness", 6000), ("svcfaults", 2000)]
+Q08 = [("registry", 40000), ("liveness", 6000), ("svcfaults", 2000), ("svckeep", 6000)]
 Q09 = [("broker", 40000)]
 
 PLANS = {
@@ -76,7 +76,7 @@ PLANS = {
                 mt=[('lifecycle', 400), ('owning', 240)], mt_required=['L2:C04.R2.after_stop_unhandled', 'L2:C04.R4.await_after_stopped']),
     "C05": plan(Q05, scale(Q05, 40),
                 "the last strong handle of an actor was dropped while it was running, or a weak handle was upgraded after that",
-                ["C05.R1.no_termination_while_held", "C05.R1.child_list_keeps_alive", "C05.R2.last_drop_terminates", "C05.R2.with_live_timers", "C05.R2.accepted_then_handled",
+                ["C05.R1.no_termination_while_held", "C05.R1.child_list_keeps_alive", "C05.R1.registry_keeps_alive", "C05.R2.last_drop_terminates", "C05.R2.with_live_timers", "C05.R2.accepted_then_handled",
                  "C05.R2.exact_time", "C05.R2.quiescent_invariant", "C05.R3.upgrade_after_last_drop", "C05.R3.monotone"],
                 mt=[('handles', 480)], mt_required=['L2:C05.R3.upgrade_after_last_drop']),
     "C12": plan(Q12, scale(Q12, 40),
@@ -145,6 +145,7 @@ PLANS = {
                          "is checked for linearizability against a sequential registry model by a memoised Wing-Gong search (2 s cap = inconclusive, counted); "
                          "distinct = distinct trace hash; non-trivial = two registry operations of one type overlapped"},
                 mt=[('registry', 960)], mt_required=['L2:C08.R1.history_linearizable', 'L2:C08.R1.concurrent_history']),
+
     "C09": plan(Q09, scale(Q09, 40),
                 ">=2 publishers with overlapping publications on a topic, or a subscription change / subscriber termination racing a publish",
                 ["C09.R1.subscribed_exactly_once", "C09.R1.resubscribed_still_once", "C09.R2.not_subscribed_zero", "C09.R3.at_most_once",
@@ -168,3 +169,8 @@ PLANS = {
         "deadline": {"quick": 1200, "thorough": 3600},
     },
 }
+
+# C08 thorough additionally runs the registry family on a release build of the L1 harness (no debug_assert ping)
+PLANS["C08"]["engines"] = ["l1", "mt", "l1r"]
+PLANS["C08"]["quick"]["l1r"] = []
+PLANS["C08"]["thorough"]["l1r"] = [("registry", 600000), ("svckeep", 60000)]
